@@ -4,6 +4,7 @@ go 1.22.0
 
 require (
 	github.com/attestantio/dirk v0.0.0
+	github.com/attestantio/go-eth2-client v0.21.11
 	github.com/herumi/bls-eth-go-binary v1.36.1
 	github.com/rs/zerolog v1.33.0
 	github.com/wealdtech/eth2-signer-api v1.7.2
@@ -21,7 +22,6 @@ require (
 	cloud.google.com/go/compute/metadata v0.5.1 // indirect
 	cloud.google.com/go/iam v1.2.1 // indirect
 	cloud.google.com/go/secretmanager v1.14.1 // indirect
-	github.com/attestantio/go-eth2-client v0.21.11 // indirect
 	github.com/aws/aws-sdk-go v1.55.5 // indirect
 	github.com/beorn7/perks v1.0.1 // indirect
 	github.com/cespare/xxhash v1.1.0 // indirect
